@@ -245,15 +245,8 @@ def run(ctx):
                       A.site(preds[0][0].bb), how=G.show(preds[0][1]), why=G.show(preds[0][1]))
     check_ref_from_ptr(ctx, F, HDR, 0)
     # who constructs the wrapper: only load's success exit - the premise of the size invariant I-BI used by its methods
-    ctors_ = []
-    for k_, f_ in F.fns.items():
-        for bb_ in f_["body"]["blocks"]:
-            if bb_.get("cleanup"):
-                continue
-            for st_ in bb_["s"]:
-                if st_["k"] == "assign" and st_["rv"]["k"] == "aggr" and st_["rv"].get("adt") == "multiboot2::boot_information::BootInformation":
-                    ctors_.append(f_)
-    bad_ = sorted({str(f_.get("path")) for f_ in ctors_ if not (f_.get("name") == "load" or f_.get("derived"))})
+    from .. import inline as INL_
+    ctors_, bad_ = INL_.constructors_of(F, "multiboot2::boot_information::BootInformation", ("load",))
     ctx.check(bool(ctors_) and not bad_, "A2", "I-BI:who-constructs", "BootInformation values are built only by load() (and derived Clone): every one satisfies "
               "`declared size >= header size` (the memory exit of load precedes the success exit; C14.B1)", "",
               how="%d construction sites, all in load" % len(ctors_), why="other constructors: %s" % bad_)
